@@ -597,6 +597,51 @@ def ways(path, cwd):
     return [("abs", path), ("rel", rel), ("url", "file://" + urllib.request.pathname2url(path)), ("fileobj", path), ("fileobj-rel", rel)]
 
 
+def _code_stream(ctx, zurl, strs):
+    """real ZConfig.url.urlnormalize / urljoin / urldefrag vs the GENERATED code (translation of url.py's source by
+    harness/zcv/pytrans.py, run by zcdrv2).  The urllib functions are parameters of the generated code: here they get the
+    answer of the REAL urllib on the same arguments (value or exception class), so that this stream validates the translation
+    of the wrappers and nothing else (the urllib models are compared with urllib by the 'urlpath' stream)."""
+    import urllib.parse
+    if not core.ensure_driver2(ctx.tie):
+        ctx.notes.append("zcdrv2 (generated code) could not be built: the code-translation tie is broken; other streams unaffected")
+        ctx.cov["generated_code_stream"] = "driver unavailable"
+        return
+    n = 0
+
+    def run_real(f, *a):
+        try:
+            return ["ok", f(*a)]
+        except Exception as e:
+            return ["err", type(e).__name__]
+    ans = core.driver_batch([[Atom("code"), "urlnormalize", s] for s in strs], exe=core.DRIVER2)
+    for s, a in zip(strs, ans):
+        n += 1
+        if a != ["ok", ["s", zurl.urlnormalize(s)]]:
+            ctx.disagree("generated-code:urlnormalize", s, zurl.urlnormalize(s), a)
+    bases = ["file:///base/dir/x.conf", "file:/b/c", "FILE:/b/c", "file:", "", "http://h/a/b", "file://host/x", "/plain/path", "file:///x"]
+    refs = strs[:: (1 if ctx.thorough() else 5)] + ["http://[x", "//[y", "file:/z", "../../q", "#f", "?q", "file:q", "/abs"]
+    reqs, want = [], []
+    for i, r in enumerate(refs):
+        for b in (bases[i % len(bases)], bases[(i // len(bases)) % len(bases)]):
+            given = run_real(urllib.parse.urljoin, b, r)
+            reqs.append([Atom("urlwrap"), Atom("urljoin"), b, r, [Atom(given[0]), given[1] if given[0] == "ok" else Atom(given[1])]])
+            real = run_real(zurl.urljoin, b, r)
+            want.append(["ok", ["s", real[1]]] if real[0] == "ok" else ["err", real[1]])
+    for u in refs + [b + "#frag" for b in bases] + ["file:/a#b", "FILE:/a#b#c", "x#", "#"]:
+        given = run_real(lambda x: tuple(urllib.parse.urldefrag(x)), u)
+        reqs.append([Atom("urlwrap"), Atom("urldefrag"), u, [Atom("ok"), given[1][0], given[1][1]] if given[0] == "ok" else [Atom("err"), Atom(given[1])]])
+        real = run_real(lambda x: tuple(zurl.urldefrag(x)), u)
+        want.append(["ok", ["tup", ["s", real[1][0]], ["s", real[1][1]]]] if real[0] == "ok" else ["err", real[1]])
+    ans = core.driver_batch(reqs, exe=core.DRIVER2)
+    for rq, w, a in zip(reqs, want, ans):
+        n += 1
+        if [a[0], a[1]] != w:
+            ctx.disagree("generated-code:" + str(rq[1]), [str(x) for x in rq[2:4]], w, a)
+    ctx.evaluations += n
+    ctx.cov["generated_code_stream"] = {"functions": ["urlnormalize", "urljoin", "urldefrag"], "evaluations": n}
+
+
 def run(ctx):
     import ZConfig
     import ZConfig.url as zurl
@@ -687,6 +732,7 @@ def run(ctx):
                 if model[k] != real[k]:
                     ctx.disagree("urlpath:" + k, [b, x], real[k], model[k])
         ctx.count("urlpath-probes", len(probes))
+    _code_stream(ctx, zurl, strs)
     # fragments are rejected by normalizeURL
     for s in ["file:///x/y.conf#frag", "http://h/x#a", "/tmp/zcv-nonexistent.conf#frag", "rel.conf#x"]:
         ctx.evaluations += 1
